@@ -283,6 +283,14 @@ class AsyncConnectionPool(AsyncRequestInterface):
         """
         closing_connections = []
 
+        # An idle connection that has been handed to a request which has not
+        # started on it yet is spoken for: it must not be closed under it.
+        reserved = [
+            request.connection
+            for request in self._requests
+            if request.connection is not None
+        ]
+
         # First we handle cleaning up any connections that are closed,
         # have expired their keep-alive, or surplus idle connections.
         for connection in list(self._connections):
@@ -295,6 +303,7 @@ class AsyncConnectionPool(AsyncRequestInterface):
                 closing_connections.append(connection)
             elif (
                 connection.is_idle()
+                and connection not in reserved
                 and len([c for c in self._connections if c.is_idle()])
                 > self._max_keepalive_connections
             ):
@@ -312,7 +321,9 @@ class AsyncConnectionPool(AsyncRequestInterface):
                 if connection.can_handle_request(origin) and connection.is_available()
             ]
             idle_connections = [
-                connection for connection in self._connections if connection.is_idle()
+                connection
+                for connection in self._connections
+                if connection.is_idle() and connection not in reserved
             ]
 
             # There are three cases for how we may be able to handle the request:
@@ -325,6 +336,7 @@ class AsyncConnectionPool(AsyncRequestInterface):
                 # log: "reusing existing connection"
                 connection = available_connections[0]
                 pool_request.assign_to_connection(connection)
+                reserved.append(connection)
             elif len(self._connections) < self._max_connections:
                 # log: "creating new connection"
                 connection = self.create_connection(origin)
